@@ -30,6 +30,50 @@ from .base import components, connected, has_2x2, neighbors4
 from vlib.harness import Failure, HarnessError, repo_frame_sig
 
 K_MODELS = 3
+Z3_BUDGET_MS = 40000   # per z3 call
+CASE_BUDGET_S = 150    # z3 time per case (a refinement loop can make hundreds of calls)
+
+
+class SolverBudget(Exception):
+    """one z3 call ran into the per-call budget: the case is inconclusive (skipped and counted)"""
+
+
+class z3_budget:
+    """give every z3 check() a time limit for the duration of one case.  cspuz' z3 backend treats
+    everything but `unsat` as satisfiable, so an `unknown` must not reach it: it is turned into
+    SolverBudget here (in the harness' own view of the z3 module, nothing in the repository changes)."""
+
+    def __init__(self, ms=None):
+        self.ms = ms or Z3_BUDGET_MS
+
+    def __enter__(self):
+        import z3
+
+        self.z3 = z3
+        self.orig = z3.Solver.check
+        orig = self.orig
+
+        import time
+
+        spent = [0.0]
+        limit = CASE_BUDGET_S
+
+        def check(this, *a):
+            t0 = time.monotonic()
+            r = orig(this, *a)
+            spent[0] += time.monotonic() - t0
+            if r == z3.unknown or spent[0] > limit:
+                raise SolverBudget()
+            return r
+
+        z3.Solver.check = check
+        z3.set_param("timeout", self.ms)
+        return self
+
+    def __exit__(self, *a):
+        self.z3.Solver.check = self.orig
+        self.z3.set_param("timeout", 4294967295)
+        return False
 
 
 # ------------------------------------------------------------------ model mode
@@ -57,8 +101,9 @@ class ModelMode:
         return False
 
 
-def sut_models(spec, inst, k):
-    """first k models (flat tuples in the spec's answer order) of what solve_<puzzle> posts"""
+def sut_models(spec, inst, k, planted=None):
+    """first k models (flat tuples in the spec's answer order) of what solve_<puzzle> posts; with a
+    planted grid also whether that grid itself is a model -> (models, admitted or None)"""
     import warnings
     from cspuz.constraints import fold_or
     from cspuz.expr import BoolVar
@@ -69,7 +114,7 @@ def sut_models(spec, inst, k):
         with ModelMode() as mm:
             ok, flat = spec.solve(inst)
         if not ok:
-            return out
+            return out, (False if planted is not None else None)
         if len(mm.solvers) != 1 or len(mm.vars) != len(flat):
             raise HarnessError("model mode: %d solvers, %d captured cells for %d answers"
                                % (len(mm.solvers), len(mm.vars), len(flat)))
@@ -87,7 +132,19 @@ def sut_models(spec, inst, k):
             if not solver.find_answer():
                 break
             out.append(tuple(v.sol for v in mm.vars))
-    return out
+        admitted = None
+        if planted is not None and len(planted) == len(mm.vars):
+            if tuple(planted) in out:
+                admitted = True
+            else:
+                # none of the blocking clauses excludes the planted grid (it differs from every blocked model)
+                for v, val in zip(mm.vars, planted):
+                    if isinstance(v, BoolVar):
+                        solver.ensure(v if val else ~v)
+                    else:
+                        solver.ensure(v == val)
+                admitted = bool(solver.find_answer())
+    return out, admitted
 
 
 def real_solve(spec, inst):
@@ -101,7 +158,7 @@ def real_solve(spec, inst):
 def _guard(name, what, fn):
     try:
         return fn()
-    except (Failure, HarnessError):
+    except (Failure, HarnessError, SolverBudget):
         raise
     except Exception as e:
         raise Failure("%s|large|solver-raises|%s" % (name, repo_frame_sig(e)),
@@ -111,7 +168,12 @@ def _guard(name, what, fn):
 def examine(ls, inst, planted):
     """soundness / completeness / exactness of one instance.  -> dict(sat, n_models, valid=[...])"""
     name = ls.name
-    models = _guard(name, "model mode", lambda: sut_models(ls.spec, inst, K_MODELS))
+    if planted is not None and ls.check(inst, planted) is not True:
+        raise HarnessError("%s: planted grid rejected by its own checker" % name)
+    models, admitted = _guard(name, "model mode", lambda: sut_models(ls.spec, inst, K_MODELS, planted))
+    if admitted is False:
+        raise Failure("%s|large|rule-obeying-grid-is-not-a-model-of-the-posted-constraints" % name,
+                      observed=dict(grid=list(planted)), expected="the planted grid obeys every rule and clue")
     valid = []
     for m in models:
         v = ls.check(inst, m)
@@ -120,11 +182,8 @@ def examine(ls, inst, planted):
                           expected="every model of the posted constraints obeys the puzzle's rules")
         if v is True:
             valid.append(m)
-    if planted is not None:
-        if ls.check(inst, planted) is not True:
-            raise HarnessError("%s: planted grid rejected by its own checker" % name)
-        if planted not in valid:
-            valid.append(planted)
+    if planted is not None and planted not in valid:
+        valid.append(planted)
     out = dict(sat=bool(models), n_models=len(models), valid=valid, decided=0)
     if not valid:
         return out
@@ -147,6 +206,11 @@ def examine(ls, inst, planted):
 
 def run_large(ls, case):
     """case: dict(puzzle, inst, planted (list or None), plan, pick [, derived])"""
+    with z3_budget():
+        return _run_large(ls, case)
+
+
+def _run_large(ls, case):
     inst = case["inst"]
     planted = tuple(case["planted"]) if case.get("planted") is not None else None
     res = dict(phase_a=None, phase_b=None)
@@ -364,11 +428,21 @@ class LAkari(LargeSpec):
     spec = C.Akari()
 
     def make(self, draw):
-        h, w = board(draw, 3, 10, 50, thin=(1, 3, 14, 30), big=10)
-        prob = [[-2] * w for _ in range(h)]
-        for (y, x) in sparse_cells(draw, h, w, draw(st.sampled_from([5, 8, 12]))):
-            prob[y][x] = -1
-        if draw(st.integers(0, 2)) == 0:
+        corridor = draw(st.integers(0, 4)) == 0
+        if corridor:
+            # a long corridor with at most two walls: sight lines of 16 cells and more
+            h, w = draw(st.integers(1, 2)), draw(st.integers(17, 34))
+            if draw(st.booleans()):
+                h, w = w, h
+            prob = [[-2] * w for _ in range(h)]
+            for _ in range(draw(st.integers(0, 2))):
+                prob[draw(st.integers(0, h - 1))][draw(st.integers(0, w - 1))] = -1
+        else:
+            h, w = board(draw, 3, 10, 50, thin=(1, 3, 14, 30), big=10)
+            prob = [[-2] * w for _ in range(h)]
+            for (y, x) in sparse_cells(draw, h, w, draw(st.sampled_from([5, 8, 12]))):
+                prob[y][x] = -1
+        if not corridor and draw(st.integers(0, 2)) == 0:
             return dict(inst=dict(h=h, w=w, problem=prob), planted=None)
         # independent planting: walk the white cells in a random order and light every cell that is
         # still dark (it is seen by no light, so no two lights see each other; in the end all are lit)
@@ -796,6 +870,13 @@ class LHeyawake(LargeSpec):
         # rectangular rooms cut so that no white run crosses two room borders
         cells = all_cells(h, w)
         black = set()
+        if h >= 5 and w >= 5 and draw(st.integers(0, 3)) > 0:
+            # the densest legal 3x3 pattern (corners and centre); it must keep clear of the outer wall,
+            # otherwise the white cell between two of its corners is cut off
+            y0, x0 = draw(st.integers(1, h - 4)), draw(st.integers(1, w - 4))
+            black = {(y0, x0), (y0, x0 + 2), (y0 + 1, x0 + 1), (y0 + 2, x0), (y0 + 2, x0 + 2)}
+            if not connected(set(cells) - black):
+                black = set()
         for c in draw(st.permutations(cells)):
             if draw(st.integers(0, 3)) == 0:
                 continue
